@@ -39,6 +39,13 @@ WByte(t, j) == IF (j + t) % 5 = 4 THEN 10 ELSE 65 + ((t * 7 + j) % 26)
 WS == {9, 10, 11, 12, 13, 32}
 IsDigit(b) == 48 <= b /\ b <= 57
 
+(* call forms of seek: "seek0" is f:seek() = seek("cur", 0); "seek1" is
+   f:seek(whence) with the offset omitted = seek(whence, 0) *)
+NormOp(o) ==
+    IF o.op = "seek0" THEN [op |-> "seek", a |-> "cur", n |-> 0]
+    ELSE IF o.op = "seek1" THEN [op |-> "seek", a |-> o.a, n |-> 0]
+    ELSE o
+
 (* ---- open modes (Lua 5.1 io.open / ISO C fopen) ------------------------ *)
 AllModes == {"r", "rb", "w", "wb", "a", "ab", "r+", "rb+", "w+", "wb+", "a+", "ab+"}
 Readable(m)  == m \in {"r", "rb", "r+", "rb+", "w+", "wb+", "a+", "ab+"}
